@@ -490,8 +490,173 @@ static void fam_sort(void)
 	in_sort = 0;
 }
 
+/* ---------- scale: scripted long histories on large arrays (capacity >= 256, wide gaps) ---------- */
+#define SC_MAX 4096
+static struct json_object *sc_el[SC_MAX];
+static int sc_dead[SC_MAX], sc_n;
+static int sc_model[SC_MAX], sc_len;
+static int in_scale;
+static char scaledesc[128];
+static void sc_deleted(struct json_object *o, void *ud)
+{
+	(void)o;
+	sc_dead[(int)(intptr_t)ud]++;
+}
+static int sc_new(void)
+{
+	int id = ++sc_n;
+	sc_el[id] = json_object_new_int(id);
+	json_object_set_userdata(sc_el[id], (void *)(intptr_t)id, sc_deleted);
+	return id;
+}
+static int sc_compare(struct json_object *arr, const char *what)
+{
+	if (json_object_array_length(arr) != (size_t)sc_len)
+	{
+		mc_violation("scale:length-differs-from-model", "%s: length %zu, model %d", what, json_object_array_length(arr), sc_len);
+		return 0;
+	}
+	for (int k = 0; k < sc_len + 2; k++)
+	{
+		struct json_object *g = json_object_array_get_idx(arr, (size_t)k);
+		struct json_object *want = (k < sc_len && sc_model[k]) ? sc_el[sc_model[k]] : NULL;
+		if (g != want || (g && json_object_get_int(g) != sc_model[k]))
+		{
+			mc_violation("scale:element-differs-from-model", "%s: index %d holds %p, model element #%d", what, k, (void *)g, k < sc_len ? sc_model[k] : 0);
+			return 0;
+		}
+	}
+	struct array_list *al = json_object_get_array(arr);
+	if (al->size < (size_t)sc_len || vf_block_size(al->array) < (size_t)sc_len * sizeof(void *))
+	{
+		mc_violation("scale:capacity-below-length", "%s: capacity %zu (allocation %zu bytes) for length %d", what, al->size, vf_block_size(al->array), sc_len);
+		return 0;
+	}
+	return 1;
+}
+static void sc_put(struct json_object *arr, int idx, int id, int insert)
+{
+	if (insert && idx < sc_len)
+	{
+		memmove(&sc_model[idx + 1], &sc_model[idx], (size_t)(sc_len - idx) * sizeof(int));
+		sc_model[idx] = id;
+		sc_len++;
+		return;
+	}
+	for (int k = sc_len; k < idx; k++)
+		sc_model[k] = 0;
+	sc_model[idx] = id;
+	if (idx >= sc_len)
+		sc_len = idx + 1;
+	(void)arr;
+}
+static void fam_scale(void)
+{
+	in_scale = 1;
+	/* each script: initial capacity, number of appends, then (gap put, append, inserts, range delete, shrink, far put) */
+	static const int fills[] = {100, 129, 257, 300, 513, 1025};
+	static const int gaps[] = {1, 40, 129, 200, 400, 900};
+	for (unsigned fi = 0; fi < sizeof fills / sizeof fills[0]; fi++)
+		for (unsigned gi = 0; gi < sizeof gaps / sizeof gaps[0]; gi++)
+			for (int cap0 = 0; cap0 < 2; cap0++)
+			{
+				snprintf(scaledesc, sizeof scaledesc, "scale fill=%d gap=%d cap=%s", fills[fi], gaps[gi], cap0 ? "default" : "0");
+				if (!mc_case_begin())
+					continue;
+				memset(sc_dead, 0, sizeof sc_dead);
+				sc_n = sc_len = 0;
+				struct json_object *arr = cap0 ? json_object_new_array() : json_object_new_array_ext(0);
+				int ok = 1;
+				for (int i = 0; i < fills[fi] && ok; i++)
+				{
+					int id = (i % 7 == 3) ? 0 : sc_new();
+					if (json_object_array_add(arr, id ? sc_el[id] : NULL))
+						ok = 0;
+					sc_model[sc_len++] = id;
+				}
+				MC_COUNT("calls", fills[fi]);
+				ok = ok && sc_compare(arr, "after the appends");
+				if (ok)
+				{
+					int idx = sc_len + gaps[gi], id = sc_new();
+					if (json_object_array_put_idx(arr, (size_t)idx, sc_el[id]))
+						mc_violation("scale:put-failed", "put_idx(%d) on length %d failed", idx, sc_len), ok = 0;
+					else
+						sc_put(arr, idx, id, 0);
+					ok = ok && sc_compare(arr, "after put_idx beyond the end");
+				}
+				if (ok)
+				{
+					int id = sc_new();
+					json_object_array_add(arr, sc_el[id]);
+					sc_model[sc_len++] = id;
+					ok = sc_compare(arr, "after one more append");
+				}
+				for (int r = 0; r < 5 && ok; r++)
+				{
+					int id = sc_new(), at = r * (sc_len / 5);
+					if (json_object_array_insert_idx(arr, (size_t)at, sc_el[id]))
+						ok = 0;
+					else
+						sc_put(arr, at, id, 1);
+					ok = ok && sc_compare(arr, "after insert_idx");
+				}
+				if (ok)
+				{
+					int at = sc_len / 3, cnt = sc_len / 2;
+					int exp[SC_MAX];
+					memcpy(exp, sc_dead, sizeof exp);
+					for (int k = at; k < at + cnt; k++)
+						if (sc_model[k])
+							exp[sc_model[k]]++;
+					if (json_object_array_del_idx(arr, (size_t)at, (size_t)cnt))
+						mc_violation("scale:delete-failed", "del_idx(%d,%d) on length %d failed", at, cnt, sc_len), ok = 0;
+					else
+					{
+						memmove(&sc_model[at], &sc_model[at + cnt], (size_t)(sc_len - at - cnt) * sizeof(int));
+						sc_len -= cnt;
+						if (memcmp(exp, sc_dead, sizeof exp))
+							mc_violation("scale:release-set-differs", "del_idx(%d,%d) released a different set of elements than the model", at, cnt), ok = 0;
+					}
+					ok = ok && sc_compare(arr, "after del_idx of a long range");
+				}
+				if (ok)
+				{
+					json_object_array_shrink(arr, 0);
+					ok = sc_compare(arr, "after shrink");
+				}
+				if (ok)
+				{
+					int idx = sc_len + gaps[(gi + 3) % 6] + 300, id = sc_new();
+					if (json_object_array_insert_idx(arr, (size_t)idx, sc_el[id]) == 0)
+						sc_put(arr, idx, id, 0);
+					ok = sc_compare(arr, "after insert_idx far beyond the end of a shrunk array");
+				}
+				json_object_put(arr);
+				for (int id = 1; id <= sc_n && ok; id++)
+					if (sc_dead[id] != 1)
+					{
+						mc_violation("scale:element-lifetime", "element #%d destroyed %d times", id, sc_dead[id]);
+						break;
+					}
+				if (vf_live())
+				{
+					mc_violation("leak", "%ld blocks live after the scale script", vf_live());
+					mc_restart_worker();
+				}
+				mc_nontrivial(mc_hash_str(scaledesc));
+				mc_sample_current();
+			}
+	in_scale = 0;
+}
+
 static void describe(sb_t *o)
 {
+	if (in_scale)
+	{
+		sb_puts(o, scaledesc);
+		return;
+	}
 	if (in_sort)
 		sb_puts(o, sortdesc);
 	else
@@ -505,10 +670,13 @@ static void enumerate(void)
 	MC_COUNT("transitions", st.transitions);
 	MC_MAX("depth_completed", st.max_depth_done);
 	fam_sort();
+	fam_scale();
 }
 static int replay(const char *desc)
 {
-	if (strstr(desc, "sort cap="))
+	if (strstr(desc, "scale fill="))
+		fam_scale();
+	else if (strstr(desc, "sort cap="))
 		fam_sort();
 	else
 		bfs_replay(&cb, desc);
